@@ -178,8 +178,33 @@ Definition init_state (bd : body) : bstate := mkSt (bdata bd) 0.
 
 Inductive rewind_result := RwOk (st : bstate) | RwNoGetBody | RwGetBodyErr.
 
-(* auth.rewindRequestBody (Body nil or http.NoBody: nothing to do) *)
+(* facts about the request that the rewind logic looks at *)
+Definition body_nil (bd : body) : bool := match bk bd with KNone => true | _ => false end.
+Definition body_nobody (bd : body) : bool := match bk bd with KNoBody => true | _ => false end.
+Definition getbody_nil (bd : body) : bool :=
+  match bk bd with KNone | KNoBody | KOneShot => true | _ => false end.
+Definition getbody_fails (bd : body) (st : bstate) : bool :=
+  match bk bd with KGetBodyErr k => negb (s_calls st <? k)%nat | _ => false end.
+
+Definition apply_rw (c : rw_class) (bd : body) (st : bstate) : rewind_result :=
+  match c with
+  | RcKeep => RwOk st
+  | RcFresh => RwOk (mkSt (bdata bd) (S (s_calls st)))
+  | RcNoGetBody => RwNoGetBody
+  | RcGetBodyErr => RwGetBodyErr
+  end.
+
+(* auth.rewindRequestBody: Generated.GC17.generated_auth_rewind is translated from the source *)
 Definition rewind (bd : body) (st : bstate) : rewind_result :=
+  apply_rw (generated_auth_rewind (body_nil bd) (body_nobody bd) (getbody_nil bd) (getbody_fails bd st)) bd st.
+
+(* the rewind block of Transport.RoundTrip: Generated.GC17.generated_rt_rewind (no special case
+   for http.NoBody -- a non-nil Body without GetBody is never retried) *)
+Definition rt_rewind (bd : body) (st : bstate) : rewind_result :=
+  apply_rw (generated_rt_rewind (body_nil bd) (body_nobody bd) (getbody_nil bd) (getbody_fails bd st)) bd st.
+
+(* the same by body kind *)
+Definition rewind_closed (bd : body) (st : bstate) : rewind_result :=
   match bk bd with
   | KNone | KNoBody => RwOk st
   | KReplay => RwOk (mkSt (bdata bd) (S (s_calls st)))
@@ -187,13 +212,10 @@ Definition rewind (bd : body) (st : bstate) : rewind_result :=
   | KGetBodyErr k => if (s_calls st <? k)%nat then RwOk (mkSt (bdata bd) (S (s_calls st)))
                      else RwGetBodyErr
   end.
-
-(* the rewind of Transport.RoundTrip: the same, except that it has no special case for
-   http.NoBody -- a non-nil Body without GetBody is never retried *)
-Definition rt_rewind (bd : body) (st : bstate) : rewind_result :=
+Definition rt_rewind_closed (bd : body) (st : bstate) : rewind_result :=
   match bk bd with
   | KNoBody => RwNoGetBody
-  | _ => rewind bd st
+  | _ => rewind_closed bd st
   end.
 
 Definition take_body (r : option nat) (s : str) : str * str :=
